@@ -50,6 +50,7 @@ type ReverseSuffixSetSearcher struct {
 	suffixLiterals *literal.Seq // All suffix literals
 	matchStartZero bool         // True if pattern starts with .* (match always starts at 0)
 	revCachePool   sync.Pool
+	fwdCachePool   sync.Pool
 }
 
 // NewReverseSuffixSetSearcher creates a reverse suffix set searcher.
@@ -124,7 +125,24 @@ func NewReverseSuffixSetSearcher(
 	s.revCachePool = sync.Pool{
 		New: func() any { return s.reverseDFA.NewCache() },
 	}
+	s.fwdCachePool = sync.Pool{
+		New: func() any { return s.forwardDFA.NewCache() },
+	}
 	return s, nil
+}
+
+// matchFrom returns the leftmost-first match that starts at matchStart, a position the
+// reverse DFA has verified to be a match start. The suffix candidate that was verified
+// only fixes the START: a greedy pattern (`.+\.(txt|log)` on "a.txt.log") may extend to
+// a later suffix, so the END must come from an anchored forward scan.
+func (s *ReverseSuffixSetSearcher) matchFrom(haystack []byte, matchStart int) (start, end int, found bool) {
+	fwdCache := s.fwdCachePool.Get().(*lazy.DFACache)
+	end = s.forwardDFA.SearchAtAnchored(fwdCache, haystack, matchStart)
+	s.fwdCachePool.Put(fwdCache)
+	if end >= 0 {
+		return matchStart, end, true
+	}
+	return s.pikevm.SearchAt(haystack, matchStart)
 }
 
 // Find searches using Teddy suffix prefilter + reverse DFA.
@@ -223,7 +241,10 @@ func (s *ReverseSuffixSetSearcher) FindAt(haystack []byte, at int) *Match {
 		// Use reverse DFA with anti-quadratic guard to find match start
 		matchStart := s.reverseDFA.SearchReverseLimited(revCache, haystack, at, suffixEnd, minStart)
 		if matchStart >= 0 {
-			return NewMatch(matchStart, suffixEnd, haystack)
+			if start, end, found := s.matchFrom(haystack, matchStart); found {
+				return NewMatch(start, end, haystack)
+			}
+			return nil
 		}
 		if matchStart == lazy.SearchReverseLimitedQuadratic {
 			// Quadratic behavior detected - fall back to PikeVM
@@ -328,7 +349,7 @@ func (s *ReverseSuffixSetSearcher) findIndicesAtImpl(haystack []byte, at int, re
 		// Use reverse DFA with anti-quadratic guard to find match start
 		matchStart := s.reverseDFA.SearchReverseLimited(revCache, haystack, at, suffixEnd, minStart)
 		if matchStart >= 0 {
-			return matchStart, suffixEnd, true
+			return s.matchFrom(haystack, matchStart)
 		}
 		if matchStart == lazy.SearchReverseLimitedQuadratic {
 			// Quadratic behavior detected - fall back to PikeVM
